@@ -183,6 +183,17 @@ def ir_key(unit, fname, _seen=None):
     return hashlib.sha256(h.encode()).hexdigest()[:16] if _seen is None else h
 
 # ----------------------------------------------------------------------------- canonical form of IEEE terms (exact identities only)
+def _signop(b):
+    """concat(~x[n-1], x[n-2:0]) -> ('neg', x);  concat(0, x[n-2:0]) -> ('abs', x)"""
+    if not (z3.is_app_of(b, z3.Z3_OP_CONCAT) and b.num_args() == 2): return None
+    hi, lo = b.arg(0), b.arg(1); n = b.size()
+    if hi.size() != 1 or not z3.is_app_of(lo, z3.Z3_OP_EXTRACT): return None
+    ph, pl = lo.params()
+    if ph != n - 2 or pl != 0 or lo.arg(0).size() != n: return None
+    x = lo.arg(0)
+    if z3.is_bv_value(hi) and hi.as_long() == 0: return 'abs', x
+    if z3.is_app_of(hi, z3.Z3_OP_BNOT) and z3.is_app_of(hi.arg(0), z3.Z3_OP_EXTRACT) and hi.arg(0).params() == [n - 1, n - 1] and hi.arg(0).arg(0).eq(x): return 'neg', x
+    return None
 _CANON = {}
 def canon(t):
     """operands of the commutative IEEE operations (fp.add, fp.mul, fp.eq, fp.min/max are NOT commutative on zeros -> untouched) in one order; a > b as b < a; to_fp(to_ieee_bv(x)) as x"""
@@ -196,6 +207,8 @@ def canon(t):
         if dk == z3.Z3_OP_FPA_GT: r = z3.fpLT(ch[1], ch[0])
         elif dk == z3.Z3_OP_FPA_GE: r = z3.fpLEQ(ch[1], ch[0])
         elif dk == z3.Z3_OP_FPA_TO_FP and len(ch) == 1 and z3.is_app_of(ch[0], z3.Z3_OP_FPA_TO_IEEE_BV) and ch[0].arg(0).sort() == t.sort(): r = ch[0].arg(0)
+        elif dk == z3.Z3_OP_FPA_TO_FP and len(ch) == 1 and _signop(ch[0]) is not None:      # the simplifier's form of x ^ signbit / x & ~signbit under a bitcast: -x / |x| (one NaN)
+            op, x = _signop(ch[0]); r = (z3.fpNeg if op == 'neg' else z3.fpAbs)(canon(z3.fpBVToFP(x, t.sort())))
         elif any(not a.eq(b) for a, b in zip(ch, t.children())): r = t.decl()(*ch)
     _CANON[k] = (t, r); return r
 
